@@ -10,6 +10,15 @@
   Part 3  mpz functions (mpz/*.c and the inline forms of mpir.h)
   Part 4  mpf functions (mpf/*.c)
   Tie = correspondence: ops in Mpir/Ops/Conv.lean against harness/ops_conv.c.
+
+  Places where the C relies on two's-complement wrap-around of signed arithmetic (undefined behaviour in ISO C,
+  benign with gcc on x86-64; the model mirrors the wrapped result):
+    get_d.c:107        `LONG_MAX - exp` for exp < 0
+    mpz/get_si.c:42    `(mpir_si) zl - 1L` for zl = 2^63 (the very case its comment is about)
+    mpz/cmp_si.c:50, mpz/set_si.c:32, mpz/set_sx.c:36, mpf/cmp_si.c:60   negation / ABS of LONG_MIN
+  Defects found with this model and repaired in /repo: the `int` truncation of the size difference in mpz_cmp /
+  mpz_cmp_si (bf39310, 7930bf7); the overflow of (EXP - size) * 64 in mpf_get_d (0f91e63).
+  Inherent in the interface (not a code defect): mpf_get_d_2exp / mpz_get_d_2exp return the exponent in a long.
 -/
 import Mpir.Base
 import Mpir.Model.Kernels
